@@ -281,7 +281,13 @@ Neighbours ==
     /\ phase' = "done"
     /\ UNCHANGED << inp, tab, mat, uniq >>
 
-Next == SubWeights \/ MappingMatrix \/ UniqueMappings \/ Neighbours
+\* mapper.pixel_signals_from(signal_scale): another read of the same mapper (it looks at the weights and at the adapt
+\* image).  It may come before or between the reads above and publishes nothing: every judged variable stays as it is.
+PixelSignals ==
+    /\ inp.kind = "rect" /\ phase # "done"
+    /\ UNCHANGED vars
+
+Next == SubWeights \/ MappingMatrix \/ UniqueMappings \/ Neighbours \/ PixelSignals
 Spec == Init /\ [][Next]_vars
 
 -----------------------------------------------------------------------------
